@@ -65,6 +65,19 @@ func preconditionFirstRule(c *Ctx, pr *PropertyRun, prop string) {
 				}
 			})
 		}
+		// resources are examined with os.Stat, which follows links like every
+		// other method of the server: os.Lstat calls a dangling link present,
+		// so an existence test made with it lets a request for a "missing"
+		// resource through to its destructive calls
+		for _, f := range withClosures(fn) {
+			eachCall(f, func(site ssa.CallInstruction) {
+				if fsPrimitiveName(p, site.Common()) == "os.Lstat" {
+					r.Role("lstat-call")
+					r.Ob(false)
+					r.Violation("lstat|"+fnKey(fn), p.instrPos(site), fnKey(fn)+" examines a resource with os.Lstat: a dangling symbolic link counts as present there and as missing (404) everywhere else, so an existence test made with it does not protect what is removed next", nil)
+				}
+			})
+		}
 		if len(destructive) == 0 {
 			continue
 		}
